@@ -76,6 +76,20 @@ pub fn build(family: &str, tier: Tier) -> Vec<Cfg> {
                     out.push(c);
                 }
             }
+            // server packets just below, at and above the maximum packet size the client announced
+            {
+                let mut c = Cfg::base("robustness", "inbound-at-client-size-limit");
+                let sized = |n: usize, qos: u8, id: u16| Pkt::Publish(VPublish { topic: "in".into(), qos, packet_id: id, payload: Some(vec![7; n]), ..Default::default() });
+                let base_len = crate::refcodec::encode(&sized(0, 1, 1), false).unwrap().len();
+                let limit = 40usize;
+                c.client_maximum_packet_size = Some(limit as u32);
+                c.inbound = vec![sized(limit - base_len - 1, 1, 1), sized(limit - base_len, 1, 2), sized(limit - base_len + 1, 1, 3)];
+                c.max_inbound = 3;
+                c.submits = vec![spec("pub1", publish("t", 1))];
+                c.max_submits = 1; c.max_conns = 2; c.budget = 2; c.max_depth = 22;
+                c.allow.close = true; c.allow.split_reads = true;
+                out.push(c);
+            }
             // extreme configuration values
             for (name, ka, ping, ack) in [("ka0-ping0", 0u16, 0u64, 0u64), ("ka1-ping1", 1, 1, 1), ("ka65535-pinghuge", 65535, 1u64 << 40, 1u64 << 40), ("ka1-ackmax", 1, 1u64 << 62, u64::MAX)] {
                 let mut c = Cfg::base("robustness", &format!("extreme-{}", name));
@@ -218,6 +232,7 @@ pub fn build(family: &str, tier: Tier) -> Vec<Cfg> {
                     c.budget = 2;
                     c.max_depth = if cap == 4 { 50 } else { 26 };
                     c.allow.close = true;
+                    c.allow.inbound_pairs = cap == 4096;
                     c.session_answers = vec![true, false];
                     c.closure = true; c.closure_steps = if cap == 4 { 200 } else { 60 };
                     out.push(c);
